@@ -356,6 +356,14 @@ def pipeline_run_obs(raised):
         return 'baseOther'
 
 
+def enc_total(v):
+    """common.enc, total: a value the wire format has no form for (NaN / Infinity from a json text) -> its repr."""
+    try:
+        return common.enc(v)
+    except (ValueError, OverflowError):
+        return {'repr': repr(v)}
+
+
 def parser_obs(parser, args):
     import importlib
     mod = importlib.import_module(parser)
@@ -367,7 +375,7 @@ def parser_obs(parser, args):
     if r is None:
         return {'ok': None}
     if isinstance(r, Mapping):
-        return {'ok': common.enc(dict(r))}
+        return {'ok': enc_total(dict(r))}
     try:
         return {'ok': {'not-a-mapping': common.enc(r)}}
     except Exception:
